@@ -155,7 +155,7 @@ reg(Spec('C08', ['c08:C08'],
          quick=[('MISUSE', 2500), ('DUPLEX', 800), ('UPGRADE', 500)],
          thorough=[('MISUSE', 60000), ('DUPLEX', 20000), ('UPGRADE', 10000)],
          overrides={'MISUSE': {'misuse_focus': [0, 0, 4, 4, 14, 1, 2], 'push': 0.2, 'ops_boost': {'push': 3}, 'aftermath': 0.4,
-                               'hdr_variety': 1.0, 'config_matrix': 0.4, 'misuse_focus': [0, 0, 4, 4, 14, 1, 2, 12, 12]}},
+                               'hdr_variety': 1.0, 'config_matrix': 0.4, 'misuse_focus': [0, 0, 4, 4, 14, 1, 2, 12, 12], 'poison_ok': True}},
          rule=R_RUN + 'non-trivial = at least one ordering call (headers/data/end/push/prioritize/alt-svc) was refused' + R_DISTINCT))
 reg(Spec('C09', ['c09:C09'],
          quick=[('DUPLEX', 1200), ('RACE', 800), ('ADV', 2000), ('MISUSE', 600)],
@@ -247,10 +247,10 @@ reg(Spec('C25', ['c25:C25', 'c25:C25E2E', 'c25:C25Flow'],
          quick=[('UPGRADE', 4000)],
          thorough=[('UPGRADE', 100000)],
          overrides={'*': {'matrix_outbound': False, 'small_closed': 0.0, 'small_backlog': False, 'big_windows': False, 'upgrade_full_space': 0.4,
-                          'upgrade_misuse_stream1': 0.3}},
+                          'upgrade_misuse_stream1': 0.3, 'upgrade_all_keys': 0.5, 'big_headers': 0.2}},
          rule=R_RUN + 'started through initiate_upgrade_connection on both sides; non-trivial = non-default client settings were handed over, or the client tried to send on stream 1' + R_DISTINCT,
          assumptions=['client settings are installed before the upgrade the only way the API offers (conn.local_settings = Settings(...)); runs that continue with '
-                      'traffic keep INITIAL_WINDOW_SIZE, MAX_FRAME_SIZE, MAX_HEADER_LIST_SIZE and HEADER_TABLE_SIZE at their defaults (state derived in __init__), '
+                      'traffic vary all settings except HEADER_TABLE_SIZE (INITIAL_WINDOW_SIZE, MAX_FRAME_SIZE and MAX_HEADER_LIST_SIZE included: since the fix of the upgrade path the client puts its decoder and frame-buffer limits in place when it writes the header; a non-default HEADER_TABLE_SIZE runs into the hpack 4.2 defect of DESIGN section 8, because the upgrade sets it twice), '
                       'runs over the whole settings space judge the settings view only']))
 
 reg(Spec('C27', ['c27:C27'],
